@@ -33,7 +33,7 @@ def run(ctx):
                           nontrivial=lambda e, p: len(p) >= 2 and any(s["exp"]["st"] == "closed" for s in p))
     # extension: futures cancelled by the application before the stream closes (specs/net/StreamCancel.tla)
     ctx.mc("net", "StreamCancel", "MC_StreamCancel.cfg",
-           required_actions=["Read", "Write", "ConnOk", "CancelRd", "CancelWr", "CancelCo", "Close"], timeout=300)
+           required_actions=["Read", "Write", "Deliver", "ConnOk", "CancelRd", "CancelWr", "CancelCo", "Close"], timeout=300)
     cp = ctx.gen_paths("net", "Gen_StreamCancel", "Gen_StreamCancel.cfg", overrides=ctx.pick({}, {"L": 8}))
     ctx.replay(cp, net_cancel.replay_cancel, label="s2c-stream-cancel",
                nontrivial=lambda e, p: p[-1]["exp"]["st"] == "closed" and any(s["act"].startswith("cancel") for s in p))
